@@ -326,6 +326,13 @@ func (d *Describer) eval(v ssa.Value, s Sigma, blk *ssa.BasicBlock, pred int, de
 				x = v.Y
 			}
 			_, fixed := s["nil?"+d.D(x)] // a valuation that fixes the merged value itself wins
+			if _, isPhi := x.(*ssa.Phi); !isPhi && !fixed && neverNil(x) {
+				// a value that is non-nil by construction (an interface made from a struct, fmt.Errorf, …)
+				if v.Op == token.NEQ {
+					return T
+				}
+				return F
+			}
 			if ph, ok := x.(*ssa.Phi); ok && !fixed && ph.Block() == blk && pred >= 0 && pred < len(ph.Edges) {
 				e := ph.Edges[pred]
 				res := U
